@@ -97,12 +97,14 @@ def campaign(c):
         for _ in range(1 + r.below(6)): L.append(r.choice(names) + ';')
         if r.chance(1, 2): L.append('f.client_close();')
         for _ in range(r.below(3)): L.append(r.choice(names) + ';')
-        one(c, (('\n' if i % 2 else ' ').join(L) + '\n').encode(), 'stored')
+        one(c, (('\n' if i % 2 else ' ').join(L) + ('\n' if i % 3 else '')).encode(), 'stored')
     n = 150 if c.quick else 2500
     from ..gen import join_lines
     for i, src, g in progdiff.generated_programs(c, n):
         if i % 3 == 1:      # several statements per source line: records still in statement order
             src = join_lines(src, c.rng.fork('join%d' % i)); c.count('several-statements-per-line')
+        if i % 4 == 3:      # the last line is not terminated by a newline (or ends in CR LF / a lone CR)
+            src = src.rstrip(b'\n') + [b'', b'\r\n', b'\r', b' ', b'\n\n'][i // 4 % 5]; c.count('unterminated-last-line')
         one(c, src, 'gen')
         for k, v in g.stats.items():
             if k.startswith('call:'): c.count(k, v)
